@@ -182,10 +182,41 @@ fn gen_tree_world(rng: &mut Rng, screen: &mut Screen, inert_pct: u32) -> World {
     world
 }
 
-fn model_all(world: &World, root: &str) -> Result<Flat, String> {
+/// The patterns the simulator can read back from a report (it has their section text), per
+/// category, as (documented name, pattern). A pattern added to solstat later is not in here and is
+/// kept out of the runs whose report is parsed.
+fn known_selection(ctx: &Ctx) -> Vec<(Cat, Vec<(String, Pat)>)> {
+    let mut out = vec![];
+    for c in [Cat::Opt, Cat::Vul, Cat::Qa] {
+        let mut v: Vec<(String, Pat)> = vec![];
+        for n in ctx.doc.of(c) {
+            if let Ok(p) = by_name(c, n) {
+                if report::has_row(p) && !v.iter().any(|(_, q)| *q == p) {
+                    v.push((n.clone(), p));
+                }
+            }
+        }
+        out.push((c, v));
+    }
+    out
+}
+
+fn known_toml(ctx: &Ctx, path: &str) -> String {
+    let sel = known_selection(ctx);
+    let names = |c: Cat| -> Vec<String> {
+        sel.iter()
+            .find(|(k, _)| *k == c)
+            .map(|(_, v)| v.iter().map(|(n, _)| n.clone()).collect())
+            .unwrap_or_default()
+    };
+    crate::c18::toml_text(path, &names(Cat::Opt), &names(Cat::Vul), &names(Cat::Qa))
+}
+
+fn model_all(ctx: &Ctx, world: &World, root: &str) -> Result<Flat, String> {
     let mut all = vec![];
-    for c in CATS {
-        all.extend(expected_findings(world, root, &defaults(c))?);
+    for (_, v) in known_selection(ctx) {
+        let pats: Vec<Pat> = v.iter().map(|(_, p)| *p).collect();
+        all.extend(expected_findings(world, root, &pats)?);
     }
     all.sort();
     Ok(all)
@@ -208,7 +239,7 @@ pub fn scenario(id: &str, ctx: &Ctx, bin: &str, rng: &mut Rng, screen: &mut Scre
         "C03" | "C11" | "C12" => {
             let world = gen_tree_world(rng, screen, 20);
             let seed = rng.next();
-            let v = walk_case(id, bin, &world, seed, &mut r);
+            let v = walk_case(ctx, id, bin, &world, seed, &mut r);
             if let Some((clause, detail)) = v {
                 r.violations.push(Violation {
                     clause,
@@ -277,7 +308,7 @@ pub fn scenario(id: &str, ctx: &Ctx, bin: &str, rng: &mut Rng, screen: &mut Scre
         "C15" => {
             let world = gen_tree_world(rng, screen, 0);
             let seed = rng.next();
-            if let Some((clause, detail)) = alone_case(bin, &world, seed, &mut r) {
+            if let Some((clause, detail)) = alone_case(ctx, bin, &world, seed, &mut r) {
                 r.violations.push(Violation {
                     clause,
                     detail,
@@ -296,7 +327,7 @@ pub fn replay(id: &str, ctx: &Ctx, scn: &Value) -> Result<Option<Violation>, Str
     let mut r = ScnResult::default();
     let seed = scn["seed"].as_u64().unwrap_or(0);
     let v = match scn["kind"].as_str() {
-        Some("walk") => walk_case(id, &bin, &World::from_json(&scn["world"])?, seed, &mut r),
+        Some("walk") => walk_case(ctx, id, &bin, &World::from_json(&scn["world"])?, seed, &mut r),
         Some("seeds") => {
             let seeds: Vec<u64> = scn["seeds"]
                 .as_array()
@@ -329,7 +360,7 @@ pub fn replay(id: &str, ctx: &Ctx, scn: &Value) -> Result<Option<Violation>, Str
             seed,
             &mut r,
         ),
-        Some("alone") => alone_case(&bin, &World::from_json(&scn["world"])?, seed, &mut r),
+        Some("alone") => alone_case(ctx, &bin, &World::from_json(&scn["world"])?, seed, &mut r),
         _ => return Err("simbin scenario kind".into()),
     };
     Ok(v.map(|(clause, detail)| Violation {
@@ -362,8 +393,8 @@ fn triples_of_report(text: &str, t: &Tables) -> (Vec<(String, String, i32)>, usi
 
 /// Real binary on a real tree: the report, read back, must be the union of the per-file results
 /// (C03); C11/C12 judge the same report against the model findings.
-fn walk_case(id: &str, bin: &str, world: &World, seed: u64, r: &mut ScnResult) -> Option<(String, String)> {
-    let expected = match model_all(world, "/w/c") {
+fn walk_case(ctx: &Ctx, id: &str, bin: &str, world: &World, seed: u64, r: &mut ScnResult) -> Option<(String, String)> {
+    let expected = match model_all(ctx, world, "/w/c") {
         Ok(e) => e,
         Err(_) => {
             r.count("binary_unjudgeable", 1);
@@ -371,8 +402,17 @@ fn walk_case(id: &str, bin: &str, world: &World, seed: u64, r: &mut ScnResult) -
         }
     };
     let s = Scratch::new();
+    let mut world = world.clone();
+    world.put_file("/w/known.toml", known_toml(ctx, "/w/c").into_bytes(), Fault::None);
+    let world = &world;
     materialise(world, &s);
-    let argv = vec!["solstat".to_string(), "--path".to_string(), "/w/c".to_string()];
+    let argv = vec![
+        "solstat".to_string(),
+        "--path".to_string(),
+        "/w/c".to_string(),
+        "--toml".to_string(),
+        "/w/known.toml".to_string(),
+    ];
     let run = run_bin(bin, &s, "/w", &argv, seed);
     r.evaluations += 1;
     r.steps += 1;
@@ -687,6 +727,12 @@ fn config_case(ctx: &Ctx, bin: &str, case: usize, name_idx: usize, seed: u64, r:
                 return None;
             }
             let (cat, name) = all[name_idx % all.len()].clone();
+            if let Some(p) = report::resolve(cat, &name) {
+                if !report::has_row(p) {
+                    r.count("names_without_oracle_row_skipped", 1);
+                    return None;
+                }
+            }
             let spelled = if case % 4 == 0 { name.clone() } else { name.to_uppercase() };
             let lists: Vec<Vec<String>> = [Cat::Opt, Cat::Vul, Cat::Qa]
                 .iter()
@@ -812,10 +858,19 @@ fn config_case(ctx: &Ctx, bin: &str, case: usize, name_idx: usize, seed: u64, r:
 
 /// C15 at process level: the entries of a file are the same whether it is analysed alone or among
 /// its siblings.
-fn alone_case(bin: &str, world: &World, seed: u64, r: &mut ScnResult) -> Option<(String, String)> {
+fn alone_case(ctx: &Ctx, bin: &str, world: &World, seed: u64, r: &mut ScnResult) -> Option<(String, String)> {
     let t = Tables::build();
-    let argv = vec!["solstat".to_string(), "--path".to_string(), "/w/c".to_string()];
+    let argv = vec![
+        "solstat".to_string(),
+        "--path".to_string(),
+        "/w/c".to_string(),
+        "--toml".to_string(),
+        "/w/known.toml".to_string(),
+    ];
     let s = Scratch::new();
+    let mut world = world.clone();
+    world.put_file("/w/known.toml", known_toml(ctx, "/w/c").into_bytes(), Fault::None);
+    let world = &world;
     materialise(world, &s);
     let run = run_bin(bin, &s, "/w", &argv, seed);
     r.evaluations += 1;
@@ -841,6 +896,7 @@ fn alone_case(bin: &str, world: &World, seed: u64, r: &mut ScnResult) -> Option<
         let mut w1 = World::new("/w");
         let (bytes, _) = world.file(f).unwrap();
         w1.put_file(&format!("/w/c/{}", base_name(f)), bytes.clone(), Fault::None);
+        w1.put_file("/w/known.toml", known_toml(ctx, "/w/c").into_bytes(), Fault::None);
         let s1 = Scratch::new();
         materialise(&w1, &s1);
         let run1 = run_bin(bin, &s1, "/w", &argv, seed ^ 1);
